@@ -143,6 +143,20 @@ func c08CheckOnce(c LogCase) (r evid.Result) {
 func c08Gen(t *rapid.T) LogCase {
 	c := genLogCase(t, datagen.QueryOpts{MaxStages: 4, AllowDistinct: true, AllowParsers: true, AllowRewrite: true, QuotedValues: true, DropMsgOften: true},
 		[]string{"plain", "json", "logfmt", "delim", "packed"})
+	// One label name from two sources of a record (an attribute named msg next to the line), next
+	// to records that carry one label more: every entry still carries exactly its own labels.
+	if rapid.IntRange(0, 5).Draw(t, "name-from-two-sources") == 0 {
+		for i := range c.Recs {
+			if c.Recs[i].Labels == nil {
+				c.Recs[i].Labels = model.LabelMap{}
+			}
+			if i%2 == 1 {
+				c.Recs[i].Labels["msg"] = "from an attribute"
+			} else {
+				c.Recs[i].Labels["zz_extra"] = "1"
+			}
+		}
+	}
 	recs := append([]model.Rec(nil), c.Recs...)
 	model.SortRecs(recs)
 	n := 0
